@@ -35,7 +35,9 @@ def layout(lens, off0=0):
                 pos += leftover
             avail = BLOCK - (pos % BLOCK) - HDR
             frag = min(left, avail)
-            phys.append((pos, frag))
+            last = (left - frag == 0)
+            typ = 1 if (first and last) else (2 if first else (4 if last else 3))     # FULL / FIRST / LAST / MIDDLE
+            phys.append((pos, frag, typ))
             pos += HDR + frag
             left -= frag
             first = False
@@ -126,7 +128,7 @@ def gen(tier, rng):
         for e in ends:
             for d in (-1, 0, 1):
                 cuts.add(e + d)
-        for (h, fl) in phys:
+        for (h, fl, _t) in phys:
             for d in (0, 1, 6, 7, 8):
                 cuts.add(h + d)
         cuts = [c for c in cuts if 0 <= c <= total]
@@ -142,7 +144,7 @@ def gen(tier, rng):
         # alterations
         for _ in range(30 if not big else 100):
             kind = rng.below(10)
-            h, fl = rng.choice(phys)
+            h, fl, _t = rng.choice(phys)
             if kind < 3:
                 off = h + rng.below(HDR)                      # header byte
             elif kind < 8 and fl > 0:
@@ -227,6 +229,30 @@ def rng_sample(rng, xs, k):
     return out
 
 
+def header_becomes_zero(ph, mut):
+    """does the whole mutation turn the length and type bytes of this physical record's header into 00 00 00 ?
+    (exactly the listed finding: a header that reads as the preallocated-region marker, type 0 AND length 0)"""
+    h, fl, typ = ph
+    b = {h + 4: fl & 0xff, h + 5: (fl >> 8) & 0xff, h + 6: typ}
+    touched = False
+    for part in mut.split(','):
+        f = part.split(':')
+        if f[0] == 'x':
+            off, m = int(f[1]), int(f[2])
+            if off in b:
+                b[off] ^= m; touched = True
+        elif f[0] == 's':
+            off, v = int(f[1]), int(f[2])
+            if off in b:
+                b[off] = v; touched = True
+        elif f[0] == 'z':
+            lo, n = int(f[1]), int(f[2])
+            for off in list(b):
+                if lo <= off < lo + n:
+                    b[off] = 0; touched = True
+    return touched and all(v == 0 for v in b.values())
+
+
 def known_matcher(findings):
     listed = [f for f in findings.get('known', []) if f.get('property') == PID]
 
@@ -244,13 +270,13 @@ def known_matcher(findings):
                     lo, hi = int(fields[1]), int(fields[1]) + int(fields[2])
                 else:
                     lo, hi = int(fields[1]), int(fields[1]) + 1
-                for (h, fl) in phys:
+                for ph in phys:
+                    h, fl = ph[0], ph[1]
                     last_block = (h // BLOCK) == ((total - 1) // BLOCK)
                     hits_len = lo < h + 6 and hi > h + 4
-                    hits_hdr = lo < h + 7 and hi > h
                     if sig == 'length-field-altered-in-final-block-looks-like-torn-tail' and hits_len and last_block:
                         return f['text']
-                    if sig == 'header-altered-to-zero-type-zero-length' and hits_hdr:
+                    if sig == 'header-altered-to-zero-type-zero-length' and header_becomes_zero(ph, mut):
                         return f['text']
         return None
     return match
@@ -265,7 +291,7 @@ def run(tier):
     chk.rules.append('cases generated from VERIF_SEED by checks/C15.py (crc lengths/alignments, writer length sequences incl. every block-boundary neighbourhood, '
                      'round trips, truncations at record/header boundaries and random offsets, bit/byte/sector alterations, arbitrary bytes); '
                      'a case is non-trivial when the implementation response is not empty/fail, distinct = distinct (suite, response)')
-    run_cases(chk, cases, unit, known=known_matcher(vlib.load_findings()))
+    run_cases(chk, cases, unit, known=known_matcher(vlib.load_findings()), reference_suites={'logw', 'log-roundtrip', 'log-truncate', 'log-alter'})
     chk.assumptions += ['reader modelled for initial_offset = 0 (the only value lcdb itself uses)',
                         'alterations: "never a record that was not written" holds unconditionally for single-byte alterations (crc_detects_single_byte); multi-byte alterations assume no CRC-32C collision']
     return chk.finish()
